@@ -27,6 +27,12 @@ def extendCoefs (coefs : List Rat) (n : Nat) : List Rat :=
     coefs ++ (List.range' coefs.length (n + 1 - coefs.length)).map harmonic
   else coefs
 
+/-- the individually elected candidates of a selection (tie objects skipped) -/
+def slotCands : List Slot → List Cand
+  | [] => []
+  | Slot.cand c :: rest => c :: slotCands rest
+  | Slot.tie _ :: rest => slotCands rest
+
 /-- `len(alt & alternative)` (approval.py L116) -/
 def interLen (b alt : List Cand) : Nat := (b.filter (fun c => alt.contains c)).length
 
